@@ -66,7 +66,7 @@ def corpus_cases(sub='cl'):
 
 def run(ctx, prop_files, flavours, n_quick, n_thorough, keep=lambda l: True, variants_quick=('multi_functor',),
         variants_thorough=('multi_functor', 'single_stdfunction', 'spinlock_functor'), what='callback list',
-        filter_case=None, extra_trusted=(), leaves=('callbacklist',), report_unfound=True):
+        filter_case=None, extra_trusted=(), leaves=('callbacklist',), report_unfound=True, spec_equiv=None):
     proof = vlib.coq_prove(ctx, prop_files, leaves=list(leaves))
     names = variants_thorough if ctx.tier == 'thorough' else variants_quick
     bins = build_variants(ctx, names)
@@ -93,7 +93,8 @@ def run(ctx, prop_files, flavours, n_quick, n_thorough, keep=lambda l: True, var
         vc = cases
         if 'stdfunction' in vname:
             vc = [strip_cb1(c) for c in cases]
-        st, model, texts, usable = cl_domain.correspond(ctx, {vname: binary}, vc, keep=keep, model_domain=oracle_domain, what=what)
+        st, model, texts, usable = cl_domain.correspond(ctx, {vname: binary}, vc, keep=keep, model_domain=oracle_domain, what=what,
+                                                        equiv=spec_equiv if oracle_domain == 'cl-spec' else None)
         for k in ('generated', 'compared', 'disagreements', 'model_error_discarded'):
             tot[k] += st[k]
         tot['distinct_nontrivial'] = max(tot['distinct_nontrivial'], st['distinct_nontrivial'])
